@@ -614,6 +614,25 @@ pub fn check_socket(env: &Option<SocketEnv>, h: &History, obs: &mut Obs) -> Chec
     } else {
         None
     };
+    // a request and a line that gets no reply, in ONE write, then silence: the reply must come without the client
+    // having to send anything else
+    {
+        use std::io::{BufRead, BufReader, Write};
+        if let Ok(mut st) = std::os::unix::net::UnixStream::connect(&env.path) {
+            let _ = st.set_read_timeout(Some(std::time::Duration::from_secs(5)));
+            let tail = if lines.len() % 3 == 0 { "\n" } else { "{\"jsonrpc\":\"2.0\",\"method\":\"get_status\"}\n" };
+            let burst = format!("{{\"jsonrpc\":\"2.0\",\"id\":\"burst\",\"method\":\"get_status\"}}\n{tail}");
+            if st.write_all(burst.as_bytes()).is_ok() {
+                let mut r = BufReader::new(st);
+                let mut l = String::new();
+                let got = r.read_line(&mut l).is_ok_and(|n| n > 0);
+                let ok = got && serde_json::from_str::<serde_json::Value>(&l).is_ok_and(|v| v["id"] == json!("burst") && v.get("result").is_some());
+                if !ok {
+                    return crate::rt::viol("request-in-a-burst-not-answered", format!("a request followed by a {} in one write got {} within 5 s", if lines.len() % 3 == 0 { "blank line" } else { "notification" }, if got { format!("the line {}", l.trim()) } else { "no reply".to_string() }));
+                }
+            }
+        }
+    }
     match crate::props::e2e::phase_control_at(&env.path, &env.live, None, &lines) {
         Err(v) if v.sig == "e2e-harness" => Ok(()),
         r => r,
@@ -671,6 +690,44 @@ fn concurrent_stress(ctx: &Ctx) {
             json!({"stress": true}),
         );
     }
+}
+
+/// The configuration as it is built at start-up from command-line values (DynamicConfig::from_cli): the timeout is
+/// "always clamped to 1000..60000 ms", and what start-up stored is what the first status and snapshot show.
+fn startup_values(ctx: &Ctx) {
+    if ctx.failed() {
+        return;
+    }
+    let mut n = 0u64;
+    let timeouts: Vec<u64> = vec![0, 1, 500, 999, 1000, 1001, 5000, 59_999, 60_000, 60_001, 120_000, u32::MAX as u64, u32::MAX as u64 + 1, (1u64 << 32) + 5000, u64::MAX];
+    for (k, t) in timeouts.iter().enumerate() {
+        for bits in 0..8u8 {
+            let (classic, no_quality, no_guard) = (bits & 1 == 1, bits & 2 == 2, bits & 4 == 4);
+            let mode = if classic { srtla_core::SchedulingMode::Classic } else { srtla_core::SchedulingMode::Enhanced };
+            let cfg = DynamicConfig::from_cli(mode, no_quality, no_guard, 32 + k as i32, 3000 + k as u64, *t);
+            let snap = cfg.snapshot();
+            let want = (*t).clamp(1000, 60_000);
+            n += 1;
+            let status = dispatch(&cfg, None, None, r#"{"jsonrpc":"2.0","id":1,"method":"get_status"}"#).map(|r| r.to_json()).unwrap_or_default();
+            let bad = if snap.conn_timeout_ms != want {
+                Some(format!("start-up timeout {t} ms is held as {} ms (clamp gives {want})", snap.conn_timeout_ms))
+            } else if !status.contains(&want.to_string()) {
+                Some(format!("start-up timeout {t} ms: get_status answers {status}"))
+            } else if snap.mode.is_classic() != classic || snap.stall_deselect == no_guard || snap.stall_min_in_flight != 32 + k as i32 || snap.stall_ack_stale_ms != 3000 + k as u64 {
+                Some(format!("start-up values (classic {classic}, no-quality {no_quality}, no-guard {no_guard}, threshold {}, ceiling {}) are held as {:?}", 32 + k, 3000 + k, snap))
+            } else if snap.quality_enabled != (!no_quality && !classic) && snap.quality_enabled != !no_quality {
+                Some(format!("start-up no-quality {no_quality} (classic {classic}) is held as quality_enabled {}", snap.quality_enabled))
+            } else {
+                None
+            };
+            if let Some(msg) = bad {
+                ctx.extra("startup_values", json!({"configurations": n}));
+                ctx.report_violation("startup-values", &crate::rt::Violation { sig: "startup-value-wrong".into(), msg }, json!({"timeout": t, "flags": bits}));
+                return;
+            }
+        }
+    }
+    ctx.extra("startup_values", json!({"configurations": n}));
 }
 
 /// Tier E2: several clients ask for the SAME value at the same moment (spin-synchronised threads) while the field
@@ -824,6 +881,10 @@ pub fn run(ctx: &Ctx) -> &'static str {
                     echo_under_contention(ctx, 2_000_000);
                     true
                 }
+                "startup-values" => {
+                    startup_values(ctx);
+                    true
+                }
                 "concurrent-stress" => {
                     concurrent_stress(ctx);
                     true
@@ -871,6 +932,7 @@ pub fn run(ctx: &Ctx) -> &'static str {
     if ctx.tier == Tier::Thorough {
         concurrent_stress(ctx);
     }
+    startup_values(ctx);
     agreeing_setters(ctx, ctx.tier.pick(40_000, 2_000_000));
     echo_under_contention(ctx, ctx.tier.pick(300_000, 5_000_000));
     crate::props::e2e::run(ctx, crate::props::e2e::Phase::Control, ctx.tier.pick(1, 4));
